@@ -13,7 +13,9 @@ FaultKinds == {"husb-missing", "wife-missing", "chil-missing",           \* refe
                "family-without-members", "source-without-title", "famc-missing", "fams-missing",
                "date-garbage", "date-empty", "date-partial", "date-reversed-range", "date-far-future",
                "surname-digit", "surname-symbol", "surname-multibyte", "surname-only-punctuation", "only-faulty-people",
-               "undated-people"}                                          \* no event with a date at all (with the cyclic links: nothing to estimate from)
+               "undated-people",
+               "lower-case-tags",                                         \* typed tags written in lower / mixed case
+               "person-named-like-place"}                                          \* no event with a date at all (with the cyclic links: nothing to estimate from)
 
 \* the commands, as the harness names them
 Commands == {"warnings", "publish-show", "publish-hide", "publish-placeholder", "publish-show-jobs4"}
